@@ -21,6 +21,7 @@ Implementation: Single-file analysis with config-driven filtering and tree-sitte
 
 from src.core.base import BaseLintContext, BaseLintRule
 from src.core.linter_utils import (
+    drop_suppressed,
     has_file_content,
     is_ignored_path,
     path_in_project,
@@ -80,7 +81,7 @@ class UnwrapAbuseRule(BaseLintRule):
 
         file_path = resolve_file_path(context)
         calls = self._analyzer.find_unwrap_calls(context.file_content or "")
-        return self._build_violations(calls, config, file_path)
+        return drop_suppressed(self._build_violations(calls, config, file_path), context)
 
     def _should_analyze(self, context: BaseLintContext, config: UnwrapAbuseConfig) -> bool:
         """Check if context should be analyzed.
